@@ -1,6 +1,6 @@
 Require Import ExtrOcamlBasic.
 Require Import GV.Model.Auth_io GV.Model.C10_io.
-Definition vp_run := auth_run.
-Definition vp_check := c10_check.
+Definition vp_run := c10x_run.
+Definition vp_check := c10x_check.
 Definition vp_nontriv := c10_nontriv.
 Extraction "model.ml" vp_run vp_check vp_nontriv.
